@@ -99,6 +99,7 @@ type Exec struct {
 	deadline   time.Time
 	instrTick  int
 	iterSeq    int
+	reflectOf  map[int]Value // reflect.Value results -> the interface value they were made from
 	cpuStart, cpuBudget time.Duration
 	limitTick  int
 }
@@ -1782,6 +1783,7 @@ func (x *Exec) mapUpdate(st *State, m, k, v Value, pos token.Pos) {
 	mt := m.T.Underlying().(*types.Map)
 	c := x.C
 	x.boundsObl(st, "mapnil", c.Distinct(m.L[0], c.IntLit(0)), pos, "assignment to entry in non-nil map")
+	x.hashableKey(st, mt, k, pos)
 	x.trackMapKey(st, m, k)
 	pn, ps := x.mapPresent(st, mt)
 	cmp := x.comp(st, pn, ps)
@@ -1862,4 +1864,54 @@ func (x *Exec) newClosureID(cl *Closure) int64 {
 	id := int64(len(x.closureTab) + 1)
 	x.closureTab[id] = cl
 	return id
+}
+
+// hashableKey: a map whose key type is an interface panics ("hash of unhashable type") when
+// the key's dynamic type is not comparable. Decided when the dynamic type is known on the
+// path; nothing is claimed (and nothing is reported) when it is not.
+func (x *Exec) hashableKey(st *State, mt *types.Map, k Value, pos token.Pos) {
+	if !x.Opt.NoPanic {
+		return
+	}
+	if _, isIface := mt.Key().Underlying().(*types.Interface); !isIface || len(k.L) != 2 {
+		return
+	}
+	if bad := x.unhashableDyn(k.L[0], k.L[1]); bad != nil {
+		x.addObl(st, "nopanic", "hash", x.C.False(), pos, "map key of interface type holds a hashable value (here it holds a "+bad.String()+")")
+		st.PC = x.C.False() // the real execution panics here: nothing follows on this path
+	}
+}
+
+// unhashableDyn returns the first dynamic type inside the interface value (tag, payload)
+// that Go cannot hash - looking through structs boxed by value into the interfaces they
+// hold - or nil when every dynamic type that is known on this path can be hashed.
+func (x *Exec) unhashableDyn(tag, pay *Term) types.Type {
+	if tag.Op != "intlit" || tag.Val.Sign() == 0 {
+		return nil
+	}
+	var dt types.Type
+	for key, id := range x.typeIDs {
+		if int64(id) == tag.Val.Int64() {
+			dt = x.typeByKey(key)
+		}
+	}
+	if dt == nil {
+		return nil
+	}
+	if !types.Comparable(dt) {
+		return dt
+	}
+	if pay.Op == "app" && strings.HasPrefix(pay.Name, "box$") {
+		leaves := LayoutOf(dt).Leaves
+		if len(leaves) == len(pay.Args) {
+			for i, lf := range leaves {
+				if lf.Role == "tag" && i+1 < len(pay.Args) {
+					if bad := x.unhashableDyn(pay.Args[i], pay.Args[i+1]); bad != nil {
+						return bad
+					}
+				}
+			}
+		}
+	}
+	return nil
 }
